@@ -19,7 +19,7 @@ def partitions(b):
 def gen(ctx):
     rng = ctx["rng"]; tier = ctx["tier"]
     LU = 6 if tier == "quick" else 8
-    LD = 7 if tier == "quick" else 9
+    LD = 7 if tier == "quick" else 8
     for k in range(0, LU + 1):
         for t in itertools.product(b"\r\nx", repeat=k):
             d = bytes(t)
